@@ -1,7 +1,9 @@
 """Witness for a failed VU-addr clause: GetObject requests whose key needs percent-encoding (an encoded percent sign, space, plus,
 slash-encoded, non-ASCII), path-style; IP / socket-address hosts against a configured base domain (replay wire-de, host-style,
 host-config)."""
-KEYS = [("/bkt/a%2525b", "a%25b"), ("/bkt/a%20b", "a b"), ("/bkt/a+b", "a+b"), ("/bkt/a%2Fb", "a/b"), ("/bkt/%C3%A9", "é"), ("/bkt/a%253Fb", "a%3Fb")]
+KEYS = [("/bkt/a%2525b", "a%25b"), ("/bkt/a%20b", "a b"), ("/bkt/a+b", "a+b"), ("/bkt/a%2Fb", "a/b"), ("/bkt/%C3%A9", "é"), ("/bkt/a%253Fb", "a%3Fb"),
+        # legal keys (<= 1024 bytes decoded) whose percent-encoded request target is far longer
+        ("/bkt/" + "%20" * 1024, " " * 1024), ("/bkt/" + "%E4%BD%A0" * 341, "\u4f60" * 341)]
 def find(ctx, oblig, diag):
     res = None
     for uri, key in KEYS:
